@@ -24,7 +24,7 @@ def check(chk, repo):
     for cls, field in (("KNNSupervisedOPF", "predicted_label"), ("UnsupervisedOPF", "cluster_label")):
         w, comps = competitions_of(repo, cls, "fit", 2)
         names = {c.fn.qual for c in comps}
-        if names != {f"{cls}._clustering"}:
+        if not all(c.fn.cls == cls and c.fn.name.startswith("_") for c in comps):  # _clustering or a phase helper of it
             raise AnalysisError(f"{cls}.fit: competition loops found in {names}")
         for k, comp in enumerate(comps):
             n += 1
